@@ -721,6 +721,23 @@ impl Check for C07 {
         for _ in 0..n {
             steps.push(gen_wstep(&mut rng, 1, &w));
         }
+        // a run of 17..40 consecutive requests to one of the smaller state-machine components (sequence, namespace, user,
+        // persistent instance) in some sequences: more than a mailbox's worth of messages for one actor in one follower batch
+        let mut rb = Rng::derive(seed, "C07.burst", 0);
+        if rb.chance(0.15) {
+            let at = rb.below(steps.len() as u64 + 1) as usize;
+            let kind = rb.below(4);
+            let k = rb.range(17, 40);
+            for j in 0..k {
+                let st = match kind {
+                    0 => if rb.chance(0.5) { WStep::SeqNext { node: 1, key: rb.below(2) as u8, n: 1 } } else { WStep::SeqRange { node: 1, key: rb.below(2) as u8, len: *rb.pick(&[1u8, 50, 100]) } },
+                    1 => WStep::NsSet { node: 1, id: (j % 4) as u8, name: rb.below(5) as u8 },
+                    2 => if j % 3 == 2 { WStep::UserDel { node: 1, id: (j % 3) as u8 } } else { WStep::UserAdd { node: 1, id: (j % 3) as u8 } },
+                    _ => WStep::PInstReg { node: 1, svc: rb.below(2) as u8, ip: (j % 4) as u8, weight: rb.below(5) as u8 },
+                };
+                steps.insert(at, st);
+            }
+        }
         // MCP definitions in a third of the sequences (tool definitions that move on while servers refer to older versions,
         // removals that are refused while a definition is in use)
         let mut rm = Rng::derive(seed, "C07.mcp", 0);
